@@ -103,7 +103,13 @@ fn pick_src_dim(rng: &mut Rng, d: u32, max_dim: u32) -> u32 {
         0 => d,                                                   // same size: no pass in this direction
         1..=4 => (d as f64 * (1.0 + rng.f64() * 4.0)) as u32,     // downscale
         5..=7 => (d as f64 * (0.2 + rng.f64() * 0.8)) as u32,     // upscale
-        8 => d + rng.range(1, 3) as u32,
+        8 => match rng.below(5) {
+            0 => d * 2,
+            1 => d * 4,
+            2 => (d / 2).max(1),
+            3 => d * 3,
+            _ => d + rng.range(1, 3) as u32,
+        },
         _ => rng.range(1, max_dim as u64) as u32,
     };
     v.clamp(1, max_dim.max(d.min(4 * max_dim)))
@@ -115,10 +121,32 @@ fn ulps_down(v: f64, n: u64) -> f64 {
 
 /// crop classes. `edge`: weight of sub-pixel / edge-flush boxes; `invalid`: allow boxes
 /// that must be rejected or are degenerate (negative, NaN, inf, too large, zero)
-fn pick_crop(rng: &mut Rng, sw: u32, sh: u32, edge: u64, invalid: bool) -> (Crop, &'static str) {
+/// one axis of a "dyadic" crop: scale a power of two and origin a multiple of 1/4, so that
+/// sample centres hit kernel zero-crossings and pixel edges *exactly*
+fn dyadic_axis(rng: &mut Rng, s: u32, d: u32) -> Option<(f64, f64)> {
+    let (sf, df) = (s as f64, d.max(1) as f64);
+    for _ in 0..6 {
+        let scale = *rng.pick(&[0.25f64, 0.5, 0.5, 1.0, 2.0, 2.0, 4.0]);
+        let w = df * scale;
+        if w <= sf && w > 0.0 {
+            let slack = ((sf - w) * 4.0).floor() as u64;
+            let l = rng.below(slack + 1) as f64 * 0.25;
+            return Some((l, w));
+        }
+    }
+    None
+}
+
+fn pick_crop(rng: &mut Rng, sw: u32, sh: u32, dw: u32, dh: u32, edge: u64, invalid: bool) -> (Crop, &'static str) {
     let (swf, shf) = (sw as f64, sh as f64);
     let c = rng.below(100);
-    if c < 35 {
+    if c < 30 {
+        return (Crop::None, "none");
+    }
+    if c < 38 {
+        if let (Some((l, w)), Some((t, h))) = (dyadic_axis(rng, sw, dw), dyadic_axis(rng, sh, dh)) {
+            return (Crop::Box([f(l), f(t), f(w), f(h)]), "dyadic");
+        }
         return (Crop::None, "none");
     }
     if c < 45 {
@@ -378,7 +406,7 @@ pub fn gen_resize(rng: &mut Rng, cfg: &ResizeCfg, classes: &mut Vec<String>, pt_
     let (crop, cclass) = if sw == 0 || sh == 0 {
         (Crop::None, "none")
     } else {
-        pick_crop(rng, sw, sh, cfg.edge_weight, cfg.allow_invalid)
+        pick_crop(rng, sw, sh, dw, dh, cfg.edge_weight, cfg.allow_invalid)
     };
     classes.push(format!("crop:{}", cclass));
     let alg = if wrap {
